@@ -1,6 +1,7 @@
 """C29 — discontiguous chunk allocation keeps the region map consistent (Map32)."""
 from vlib import unit
 from vlib.engine import Case
+from checks import layoutlib
 
 FIRST, LAST = 100, 131
 N = LAST - FIRST + 1
@@ -120,14 +121,17 @@ class Spec(unit.UnitSpec):
                     l = sim.lists.get(s, [])
                     ops.append(f"map32 walk {l[0] if l else 0}")
             cases.append(Case(ops))
-        return cases
+        # the page-resource layer: CommonPageResource heads over one private Map32 (component `dpr`)
+        return cases + layoutlib.dpr_gen(rng, 300 if tier == "quick" else 15000, debug)
 
     def corpus(self, debug):
-        return [Case(["map32 new", "map32 alloc 4 3 0", "map32 alloc 4 2 100", "map32 alloc 8 5 0", "map32 alloc 4 1 103",
+        return layoutlib.DPR_CORPUS + [Case(["map32 new", "map32 alloc 4 3 0", "map32 alloc 4 2 100", "map32 alloc 8 5 0", "map32 alloc 4 1 103",
                       "map32 walk 110", "map32 walk 105", "map32 free 103", "map32 walk 110", "map32 alloc 8 2 105",
                       "map32 walk 103", "map32 freeall 100", "map32 walk 103", "map32 alloc 4 40 0", "map32 alloc 4 21 0", "map32 state"])]
 
     def oracle(self, case, impl_out):
+        if case.ops and case.ops[0].startswith("dpr "):
+            return layoutlib.dpr_oracle(case, impl_out, want=("pr", "map32", "dpr"))
         try:
             return self._oracle(case, impl_out)
         except Exception as e:       # output that is neither a result nor a panic line
@@ -234,18 +238,24 @@ class Spec(unit.UnitSpec):
         return runs
 
     def nontrivial(self, case, out):
+        if case.ops and case.ops[0].startswith("dpr "):
+            return layoutlib.dpr_nontrivial(case, out)
         return any(o.startswith("0 ") for o in out) or sum(1 for o in case.ops if " free" in o) >= 2
 
     def summarize(self, cases, outs):
         h, k = {}, {}
+        pr = {}
+        layoutlib.dpr_summarize(cases, outs, h, pr)
         for c, o in zip(cases, outs):
             for op, out in zip(c.ops, o):
+                if op.startswith("dpr "):
+                    continue
                 t = op.split()[1]
                 h[t] = h.get(t, 0) + 1
                 if t == "alloc":
                     r = "exhausted" if out.startswith("0 ") else "panic" if out.startswith("panic") else "ok"
                     k[r] = k.get(r, 0) + 1
-        return {"op": h, "alloc_outcome": k}
+        return {"op": h, "alloc_outcome": k, "page_resource": pr}
 
 
 META = {
@@ -256,4 +266,4 @@ META = {
 
 
 def main(argv=None):
-    return unit.main(Spec(), argv)
+    return layoutlib.multi_main([Spec()], argv, extra=layoutlib.gc_part("C29", ("pr:", "map32:", "gc:")))
